@@ -1412,7 +1412,7 @@ class Structure(UniqueMixin, metaclass=StructMeta):
 
     @classmethod
     def get_all_fields_by_name(cls) -> dict:
-        return getattr(cls, "_field_by_name")
+        return dict(getattr(cls, "_field_by_name"))
 
     @classmethod
     def get_aggregated_serialization_mapper(cls) -> list:
